@@ -9,7 +9,7 @@ import grammar as G
 import lit
 from props import c04 as R
 
-CLASSES_C05 = {4: 'ring_in_unit', 5: 'nested_in_unit', 10: 'stale_recipe'}
+CLASSES_C05 = {4: 'ring_in_unit', 5: 'nested_in_unit'}   # stale_recipe (10) is repaired in the code
 
 
 _ORD = {'.': 0, '-': 1, '=': 2, '#': 3, '$': 4}
@@ -110,17 +110,6 @@ def py_class(a, braces=True):
         anchor0 = it is a[0] and mval(it) <= 1
         if mval(br) >= 2 and inner and (mval(br) >= 3 or anchor0 or j > 0 or len(inner) >= 2 or any(b['m'] is not None for b in inner)):
             return 5
-    def stale(chain, anc, total):
-        for it in chain:
-            for br in it['br']:
-                if (mval(br) >= 2 and anc + 1 < total) or stale(br['c'], anc + 1, total):
-                    return True
-        return False
-    for it in a:
-        for T in it['br']:
-            total = sum(len(x['br']) for x in G.items_in_order(T['c']))
-            if stale(T['c'], 0, total):
-                return 10
     return 0
 
 
